@@ -1,6 +1,9 @@
 package main
 
 import (
+	"github.com/Oneledger/protocol/consensus"
+	"github.com/Oneledger/protocol/data/balance"
+	"github.com/Oneledger/protocol/data/delegation"
 	"bytes"
 	"fmt"
 	"os"
@@ -148,6 +151,17 @@ func checkC01(tier string) int {
 			// (one more history of that shape among the ordinary ones)
 			params.NumGenesisVals, params.TopValidators, params.NumCandidates = 9, 10, 1
 			params.GenesisPowers = []int64{3000000, 3100000, 3200000, 3300000, 3400000, 3500000, 3600000, 40000000, 50000000}
+		}
+		if i%2 == 1 {
+			// a chain started from a dumped state: the genesis carries unstaked amounts that mature at a dozen
+			// different heights (whatever InitChain does with them, every node must do the same)
+			params.Mutate = func(st *consensus.AppState) {
+				for k := 0; k < 12; k++ {
+					who := st.Balances[k%len(st.Balances)].Address
+					st.Delegation.MatureAmounts = append(st.Delegation.MatureAmounts, &delegation.MatureData{Address: who, Amount: *balance.NewAmount(int64(1000 + k)), Height: int64(7 + 5*k)})
+				}
+			}
+			r.Count("histories_started_from_a_dumped_state_with_pending_mature_amounts", 1)
 		}
 		restarted := false
 		cfg := drive.Cfg{
